@@ -92,6 +92,12 @@ def _cases(tier, r):
                 out.append(("toy1r", dict(theta=theta, m2=0.3), phase, rng_kind, 2.0, False))
     if tier == "thorough":
         out += [("toy1", dict(u=50.0), "low", "cross", 1.0, True), ("toy1", dict(u=0.02), "high", "inside", 1.0, True)]
+    # small units (T ~ 1e-3 .. 1e-5) with a starting guess that is only approximately at the minimum (3 % off, as the documentation allows):
+    # the starting point and every re-minimisation must still converge to the minimum (tolerances relative to the size of the potential)
+    for u_, par_ in (((1e-3, True), (1e-3, False)) if tier == "quick" else ((1e-3, True), (1e-3, False), (1e-5, True), (1e-5, False), (1e-2, True), (40.0, True))):
+        out.append(("toy1", dict(u=u_, guess_off=0.03), "low", "inside", 1.0, par_))
+    if tier == "thorough":
+        out.append(("toy2", dict(u=1e-4, guess_off=-0.04), "low", "inside", 1.0, True))
     return out
 
 
@@ -100,6 +106,8 @@ def _setup(kind, params, phase, rng_kind):
     import WallGo
     from WallGo.freeEnergy import FreeEnergy
     from WallGo.fields import Fields
+    params = dict(params)
+    guess_off = params.pop("guess_off", 0.0)
     if kind == "toy1":
         ref = models.toy1_class()(**params)
         Tc = ref.Tc()
@@ -154,6 +162,8 @@ def _setup(kind, params, phase, rng_kind):
             spin_lo, spin_hi = None, T1
             exact_field = lambda T: np.array([float(model.phiB(T)), 0.0])   # noqa: E731
             exact_V = lambda T: float(model.VLow(T))   # noqa: E731
+    if guess_off:
+        guess = Fields((np.asarray(guess)[0] * (1.0 + guess_off)).tolist())
     fe = FreeEnergy(model, Tn, guess)
     fe.disableAdaptiveInterpolation()
     if rng_kind == "inside":
@@ -358,6 +368,54 @@ def search(rep: C.Report, tier: str, broken):
             if abs(Tc - Tc0) > 1e-5 * Tc0:
                 rep.violation("critical temperature (phases traced by findCriticalTemperature itself) is not where the free energies cross",
                               info, finding_key="C11:Tc-value")
+    # requested ranges whose ends lie on the lattice T0 + k*dT (round numbers, as users type them): the accumulated steps miss the end of the
+    # range by a few ulp, and the integrator then adds a step of rounding size.  The interpolated free energy must still agree with the closed form inside the advertised range.
+    from WallGo.freeEnergy import FreeEnergy
+    ra = C.rng("C11aligned")
+    for k in range(14 if tier == "quick" else 120):
+        u = 10 ** ra.uniform(-5, 2)
+        params = ra.choice(({}, dict(E=0.07, lam=0.12), dict(a=30.0)))
+        ref = models.toy1_class()(u=u, **params)
+        T0_, Tc0, T1_ = ref.T0, ref.Tc(), ref.T1()
+        Tn = T0_ + 0.6 * (Tc0 - T0_)
+        ref.configureDerivatives(WallGo.VeffDerivativeSettings(temperatureVariationScale=0.1 * T0_, fieldValueVariationScale=float(ref.phiBroken(Tn))))
+        dT = ra.choice((0.0025, 0.003, 0.001, 0.004)) * T0_
+        phase = ra.choice(("low", "high"))
+        paranoid = ra.choice((True, False))
+        nu_, nd_ = ra.randint(3, 14), ra.randint(3, 12)
+        Tstart = T0_ * (ra.choice((1.0, 1.02, 1.05)) if phase == "low" else 1.2)
+        TMin, TMax = Tstart - nd_ * dT, Tstart + nu_ * dT
+        if phase == "low" and TMax > 0.97 * T1_:
+            continue
+        guess = Fields([float(ref.phiBroken(Tstart))]) if phase == "low" else Fields([0.0])
+        exact = (lambda T, ref=ref: float(ref.VBroken(T))) if phase == "low" else (lambda T, ref=ref: float(ref.VSym(T)))
+        fe = FreeEnergy(ref, Tstart, guess)
+        fe.disableAdaptiveInterpolation()
+        info = {"model": "toy1", "params": dict(params, u=u), "phase": phase, "paranoid": paranoid, "startingTemperature": Tstart, "TMin": TMin, "TMax": TMax,
+                "dT": dT, "rTol": 1e-6, "how": "FreeEnergy(model, Tstart, exact minimum).tracePhase(Tstart - nd*dT, Tstart + nu*dT, dT, 1e-6, paranoid=...)"}
+        rep.case(key=("aligned-range", k))
+        rep.count("lattice-aligned ranges")
+        try:
+            fe.tracePhase(TMin, TMax, dT, 1e-6, spinodal=True, paranoid=paranoid)
+        except Exception as ex:  # noqa: BLE001
+            rep.count("aligned trace raised " + type(ex).__name__)
+            continue
+        pts = np.asarray(fe._interpolationPoints)   # pylint: disable=protected-access
+        info["smallest_node_spacing_over_dT"] = float(np.diff(pts).min() / dT)
+        a_, b_ = fe.minPossibleTemperature[0], fe.maxPossibleTemperature[0]
+        worst = (0.0, 0.0, None)
+        for T in np.linspace(a_, b_, 60):
+            ev = exact(T)
+            ed = (exact(T * (1 + 1e-6)) - exact(T * (1 - 1e-6))) / (2e-6 * T)
+            e0 = abs(float(fe(T).veffValue) - ev) / abs(ev)
+            e1 = abs(float(fe.derivative(T, order=1).veffValue) - ed) / abs(ed)
+            if e0 > worst[0]:
+                worst = (e0, e1, float(T))
+        # judged on the VALUE only (the property's clause); the derivative error at that temperature is recorded for information
+        if worst[0] > 3e-6:
+            rep.violation("inside the advertised range the interpolated free energy differs from the potential at the exact minimum by more than the requested "
+                          "tracing tolerance (rTol = 1e-6, relative)", dict(info, rel_error_F=worst[0], rel_error_dFdT_there=worst[1], at_T=worst[2],
+                                                              advertised_range=[float(a_), float(b_)]), finding_key="C11:interp-accuracy-aligned")
     # direction: swap the roles of the phases (the labelled low-T phase is favoured ABOVE the crossing)
     th, model, info = models.make_thermo("toy1", {}, TnFrac=0.6, tminFrac=0.8, tmaxFrac=1.12, key="swapped-for-C11")
     th.freeEnergyHigh, th.freeEnergyLow = th.freeEnergyLow, th.freeEnergyHigh
